@@ -1,8 +1,14 @@
 M("c06_handler_index_bounds", ["C06", "C05"], "bounds", tier="quick",
   desc="every slice/Vec index bounds check (MIR assert 'index out of bounds') in the Server command handlers whose index and length are tracked integer terms: no execution with the check failing exists (e.g. parts[i + 1] after an `i + 1 >= parts.len()` test in the SET option loop) - a failing check would panic the single command thread",
   assumptions=["loop-modified locals are arbitrary at loop heads; lengths of slices are arbitrary non-negative integers; checks whose index or length is not a tracked term are counted as undecided and reported in the evidence, never as violations"],
-  fns=[r"server\.rs.*>::handle_\w+$"], skip=[r"closure"])
+  fns=[r"server\.rs.*>::handle_\w+$"], skip=[r"closure"], min_len={"parts": 1})
 M("c06_command_module_index_bounds", ["C06"], "bounds", tier="quick",
   desc="same obligation for the public command handlers in storage/commands/*.rs (strings, lists, sets, hashes, streams, scan, consumer groups, transactions ...)",
-  assumptions=["as c06_handler_index_bounds"],
-  fns=[r"^handle_\w+$", r"commands::\w+::handle_\w+$"], skip=[r"closure"])
+  assumptions=["as c06_handler_index_bounds", "precondition of every handler: the request slice `parts` is non-empty (the dispatch has read parts[0])"],
+  fns=[r"^handle_\w+$", r"commands::\w+::handle_\w+$"], skip=[r"closure"], min_len={"parts": 1})
+M("c06_handler_arith_overflow", ["C06"], "bounds", tier="quick", overflow=True,
+  desc="arithmetic overflow checks (MIR asserts 'which would overflow') in the command handlers whose operands are modelled terms that are not loop-carried: no execution on which the check fails exists (numbers parsed from the request are arbitrary values of their type: DECRBY i64::MIN, EVAL with numkeys = usize::MAX ...)",
+  assumptions=["results of len()/count() calls and slice lengths are <= isize::MAX; loop-carried accumulators, multiplications and flags of arithmetic the encoder does not model are undecided (reported in the evidence), never violations",
+               "Server::handle_ttl is skipped: its `secs + 1` on Duration::as_secs() of a remaining TTL cannot overflow in reality but the call result is an arbitrary u64 in this encoding",
+               "handle_eval_with_db is skipped: its only decided check is `pos + \"REDIS_CALL_ABORT:\".len()` with pos returned by str::find (bounded by the string length in reality, arbitrary here); its client-controlled arithmetic lives in process_keys_and_args, which IS included"],
+  fns=[r"server\.rs.*>::handle_\w+$", r"^handle_\w+$", r"commands::\w+::handle_\w+$", r"process_keys_and_args$"], skip=[r"closure", r">::handle_ttl$", r"^handle_eval_with_db$"], msg=r"which would overflow")
